@@ -21,24 +21,26 @@ ASSUMPTIONS = unitkit.UNITS_STUB_TEXT + [
     "completeness of the four symbol classes is re-checked on every run by an AST pass over unit_environment.py (uses of `symbol` must be membership test, table key, list element, prefix concatenation)",
 ]
 OUTSIDE = ['more than 3 units per scope, nesting deeper than 2', 'concurrent use of the process-wide tables from several threads']
-BOUNDS = {'quick': '<= 2 units per scope (4 classes x 4 kinds each), body raises or not, 4 scope shapes (with / explicit close / nested / repeated); 14 DIP texts',
+BOUNDS = {'quick': '<= 2 units per scope (4 classes x 5 kinds each), body raises or not, 4 scope shapes (with / explicit close / nested / repeated); 14 DIP texts',
           'thorough': '<= 3 units per scope'}
 EXHAUSTIVE = {'quick': True, 'thorough': True}
 PRE = '''
 from scinumtools.units import Quantity, UnitEnvironment
 from scinumtools.units.settings import UNIT_STANDARD, UNIT_PREFIXES, UNIT_TYPES
-from scinumtools.units.unit_types import StandardUnitType
+from scinumtools.units.unit_types import StandardUnitType, TemperatureUnitType
 SYMBOLS = [['qa', 'qb', 'qc'], ['m', 'g', 's'], ['ol', 'in', 'ol'], ['km', 'mmol', 'kJ']]   # per class: fresh / existing / collides through own prefixes / equals a prefixed symbol
 class MyType(StandardUnitType):
     pass
+ORIG_TYPES = list(UNIT_TYPES)
 def pristine():
     """harness hygiene: every path starts from the library's own tables (a leak found on one path must not pollute the next)"""
     for row in SYMBOLS:
         for s in row + [x + 'x' for x in row]:
             if s in UNIT_STANDARD and s not in ('m', 'g', 's', 'in'):
                 del UNIT_STANDARD[s]
-    if 'outer1' in UNIT_STANDARD: del UNIT_STANDARD['outer1']
-    while MyType in UNIT_TYPES: UNIT_TYPES.remove(MyType)
+    for s in ('outer1', '[len]', '[tim]'):
+        if s in UNIT_STANDARD: del UNIT_STANDARD[s]
+    UNIT_TYPES[:] = ORIG_TYPES
 def snapshot():
     return ([(k, tuple(r.data().values()) if not hasattr(r.magnitude, 't') else None) for k, r in UNIT_STANDARD.items()],
             [(k, tuple(r.data().values())) for k, r in UNIT_PREFIXES.items()], list(UNIT_TYPES))
@@ -50,12 +52,13 @@ def pick(sel, n):
 def make_units(v, count):
     units = {}
     for u in range(count):
-        cls = pick(getattr(v, f'cls{u}'), 4); kind = pick(getattr(v, f'kind{u}'), 4)
+        cls = pick(getattr(v, f'cls{u}'), 4); kind = pick(getattr(v, f'kind{u}'), 5)
         sym = SYMBOLS[cls][u]
         x = getattr(v, f'x{u}')
         if kind == 0: d = {'magnitude': x, 'dimensions': [1, 0, 0, 0, 0, 0, 0, 0], 'prefixes': True if cls == 2 else False}
         elif kind == 1: d = Quantity(x, 'm')
         elif kind == 2: d = {'dimensions': [1, 0, 0, 0, 0, 0, 0, 0]}                     # malformed: no magnitude
+        elif kind == 4: d = {'magnitude': x, 'dimensions': [1, 0, 0, 0, 0, 0, 0, 0], 'definition': TemperatureUnitType}   # a conversion type that is already registered
         else: d = {'magnitude': x, 'dimensions': [1, 0, 0, 0, 0, 0, 0, 0], 'definition': MyType, 'prefixes': ['k'] if cls == 2 else False}
         if sym in units:
             sym = sym + 'x'
@@ -65,7 +68,7 @@ def body(v, O, out, units, tag):
     # a fresh unit defined by a magnitude in metres must convert accordingly while the scope is open
     for u, (sym, d) in enumerate(units.items()):
         x = getattr(v, f'x{u}')
-        if sym in UNIT_STANDARD:
+        if sym in UNIT_STANDARD and not (isinstance(d, dict) and d.get('definition') is TemperatureUnitType):
             out.append((f'{tag}: {sym} usable inside the scope', O.eq(Quantity(2, sym).value('m'), 2 * x, 1e-9)))
 '''
 SRC = '''
@@ -117,6 +120,43 @@ def run(v, O):
 '''
 
 
+DIPPRE = PRE + '''
+from scinumtools.dip import DIP, Format
+def dip_outcome(text, base=None):
+    try:
+        with DIP(base) as p:
+            p.add_string(text)
+            return ('ok', p.parse())
+    except Exception as e:
+        return ('raised', type(e).__name__)
+def subst(O, v, text):
+    import re as _r
+    return _r.sub(r'\\{(\\w+)\\}', lambda m: O.lit(getattr(v, m.group(1))), text)
+'''
+DIP_SRC2 = '''
+def run(v, O):
+    out = []
+    for label, text, should_parse in v.cases:
+        before = snapshot()
+        r = dip_outcome(subst(O, v, text))
+        after = snapshot()
+        out.append((f'{label}: unit table restored', O.same(after[0], before[0])))
+        out.append((f'{label}: conversion types restored', O.same(after[2], before[2])))
+        out.append((f'{label}: custom unit unusable afterwards', O.raises(lambda: Quantity(1, '[len]'))))
+        if should_parse is not None:
+            out.append((f'{label}: ' + ('parses' if should_parse else 'is rejected'), O.same(r[0] == 'ok', should_parse)))
+        if r[0] == 'ok' and label == 'custom unit used in a definition':
+            out.append(('custom unit converts inside the parse', O.eq(r[1].data(Format.VALUE)['b'], v.x * v.y / 100, 1e-9)))
+    # parsing on top of an environment that carries custom units
+    r = dip_outcome(subst(O, v, '$unit len = {x} cm\\na float = {y} [len]'))
+    if r[0] == 'ok':
+        before = snapshot()
+        r2 = dip_outcome(subst(O, v, 'c float = {y} [len]\\nc = {x} s'), r[1])
+        out.append(('second parse on a base environment: unit table restored', O.same(snapshot()[0], before[0])))
+    return out
+'''
+
+
 def symbol_uses():
     """how unit_environment.py uses the loop variable `symbol` (completeness of the 4 behavioural classes)"""
     import scinumtools.units.unit_environment as M
@@ -162,13 +202,25 @@ def scenarios(tier, seed):
                     inp[f'cls{u}'] = 'int'
                     inp[f'kind{u}'] = 'int'
                     inp[f'x{u}'] = 'real'
-                    pre += [f'v.cls{u} >= 0', f'v.cls{u} <= 3', f'v.kind{u} >= 0', f'v.kind{u} <= 3', f'v.x{u} > 0']
+                    pre += [f'v.cls{u} >= 0', f'v.cls{u} <= 3', f'v.kind{u} >= 0', f'v.kind{u} <= 4', f'v.x{u} > 0']
                 if 'x0' not in inp:
                     inp['x0'] = 'real'
                 S.append(Scenario(f'scope/{shape}/{count}/{"raise" if raises else "return"}', SRC, inp, pre, consts={'count': count, 'shape': shape, 'body_raises': raises},
                                   preamble=PRE, what=f'{shape} scope with {count} custom units, body {"raises" if raises else "returns"}', samples=2))
+    dipcases = [('custom unit used in a definition', '$unit len = {x} cm\na float = {y} [len]\nb float = 1 m\nb = {y} [len]\n', None),
+                ('duplicate unit name', '$unit len = {x} cm\na float = {y} [len]\n$unit len = {y} m', False),
+                ('unknown unit in a later definition', '$unit len = {x} cm\na float = {y} [len]\nb float = {x} foo', False),
+                ('dimension clash in a modification', '$unit len = {x} cm\na float = {y} [len]\na = {x} s', False),
+                ('dimension clash in an option', '$unit len = {x} cm\na float = {y} [len]\n  = {x} s', False),
+                ('custom unit in a numerical expression', '$unit len = {x} cm\na float = {y} [len]\nb float = ("{?a} * 2") cm', None),
+                ('custom unit in a failing condition', '$unit len = {x} cm\na float = 1 [len]\n  !condition ("{?} > 2 [len]")', False),
+                ('custom unit in a case expression', '$unit len = {x} cm\na float = {y} [len]\n@case ("{?a} > 1 [len]")\n  c int = 1\n@else\n  c int = 2', None),
+                ('two custom units, second definition malformed', '$unit len = {x} cm\n$unit tim = {y}\na float = 1 [len]\nb float = 1 [tim]\nb = 1 [len]', False),
+                ('integer node with custom unit, bad later line', '$unit len = {x} cm\nk int = 3 [len]\nq qqq = 1', False)]
+    S.append(Scenario('dip', DIP_SRC2, {'x': 'real', 'y': 'real'}, ['v.x > 0', 'v.y > 0'], consts={'cases': dipcases}, preamble=DIPPRE,
+                      what='DIP texts with $unit lines where a later statement fails', samples=2))
     S.append(Scenario('canary/leak', SRC.replace("    after = snapshot()\n", "    UNIT_STANDARD.append('leak', (1.0, [0] * 8, None, 'leak', False))\n    after = snapshot()\n    del UNIT_STANDARD['leak']\n"),
-                      {'cls0': 'int', 'kind0': 'int', 'x0': 'real'}, ['v.cls0 >= 0', 'v.cls0 <= 3', 'v.kind0 >= 0', 'v.kind0 <= 3', 'v.x0 > 0'],
+                      {'cls0': 'int', 'kind0': 'int', 'x0': 'real'}, ['v.cls0 >= 0', 'v.cls0 <= 3', 'v.kind0 >= 0', 'v.kind0 <= 4', 'v.x0 > 0'],
                       consts={'count': 1, 'shape': 'with', 'body_raises': False}, preamble=PRE, canary=True))
     return S
 
@@ -183,7 +235,8 @@ def tasks(tier, seed):
 def run_task(task):
     S = scenarios(task['tier'], task['seed'])
     i, k = task['slice']
-    res = run_scenarios(S[i::k], unitkit.units_patches, timeout_ms=20000, seed=task['seed'], wall_s=600, max_paths=20000)
+    from harness import dipkit
+    res = run_scenarios(S[i::k], dipkit.dip_patches, timeout_ms=20000, seed=task['seed'], wall_s=600, max_paths=20000)
     if i == 0:
         kinds = symbol_uses()
         if not kinds <= ALLOWED_USES:
